@@ -9,6 +9,7 @@ import (
 	"runtime"
 	"strings"
 	"sync"
+	"sync/atomic"
 
 	"golang.org/x/tools/go/ssa"
 	"golang.org/x/tools/go/ssa/ssautil"
@@ -159,6 +160,7 @@ type Machine struct {
 	hashLogs   map[*value][]*term.Term
 	OnlyAsserts  []string // assertion-id prefixes that count (empty = all)
 	IgnorePanics bool     // panics/deadlocks are another property's subject
+	Abort      *int32 // set by the exploration driver when the job's cap expired
 	ZoneOnly   bool // crash points and schedule exploration only while the harness's record "zone" is 1
 	StubS2     bool // always use the stub framing for s2 (never the real encoder)
 	SymIndex   bool // symbolic indices into scalar slices stay symbolic (ite chains) instead of being case-split
@@ -739,6 +741,9 @@ func (m *Machine) runBlock(fr *frame) {
 		m.pathSteps++
 		if m.pathSteps > m.MaxSteps {
 			panic(pathEnd{"unwind"})
+		}
+		if m.pathSteps&1023 == 0 && m.Abort != nil && atomic.LoadInt32(m.Abort) != 0 {
+			panic(pathEnd{"abort"}) // the job's wall-clock cap expired in the middle of a path
 		}
 		m.noteSite(fr, instr)
 		if m.Trace {
